@@ -13,6 +13,7 @@ EXPLANATION = (
     "await that cannot complete without suspending infinitely often (reader op under EOF discipline, queue.get, sleep(>0)). SCAN-PROGRESS and the serial EOF clause are decided on the interpreted serial scanner (every call returns within the step budget; a read of b'' raises); ONE-RX's cancellation clause is a forward must-analysis with branch refinement (any spelling of the guarding test, local aliases). UNDECIDED: actual "
     "timing, peer behaviour, tenacity internals, schedules in which a slow status callback holds the connect lock while the old receive path faults."
     " [RETRY] a retry loop written by hand (no AsyncRetrying) is decided by walking connect()'s graph along the path of a failing attempt, 40 failures in a row, with the numeric locals evaluated concretely: each failure must lead back to the attempt through an awaited sleep whose delay is positive, never shrinks, grows and is capped. FAULT-PATH follows local flags (failure = None / ex) path-sensitively."
+    ' Fifth round: a path through a fault handler is a witness only when no undecided test on it reads something of the client that may stand for the connection state; start / get / put sites that moved into helpers, an attempt or a callback inside a `with` over an unknown context manager, and reads made through helpers are undecided; a helper coroutine runs under the lock when every call (or hand-over as a value) of it does.'
 )
 ASSUMPTIONS = ["CPython ast parser", "asyncio.StreamReader: readexactly/readuntil raise at EOF, read/readline return b''", "tenacity 9.1 wait_exponential formula",
                "an await on a reader at EOF / queue.put on an unbounded queue completes without suspending", "cfg.py exception-edge model"]
